@@ -823,45 +823,16 @@ def rule_D6(ctx, rule: str = "D6") -> None:
         if q.endswith("__len__") and len(rets) == 1 and ast.unparse(rets[0].value) == "len(bytes(self))":
             ctx.proved(rule, f"{q}:no-loop-carried-decisions", mod.loc(fn), "delegates to dump")
             continue
-        g = CFG(fn, implicit_exc=False)
-        loops = [nd for nd in g.nodes if nd.kind == "loop" and isinstance(nd.stmt, ast.For) and "meta_by_field_name" in ast.unparse(nd.stmt.iter)]
-        if not loops:
+        targets = _d6_field_loops(mod, fn)
+        if not targets:
             ctx.inconclusive(rule, f"{q}:no-loop-carried-decisions", "field loop not found", mod.loc(fn))
             continue
-        head = loops[0]
-        body_stmts = set()
-        for st in ast.walk(head.stmt):
-            body_stmts.add(id(st))
-        body_nodes = [nd for nd in g.nodes if nd.stmt is not None and id(nd.stmt) in body_stmts and nd.id != head.id and nd.kind in ("stmt", "test", "loop")]
-        assigns: Dict[str, Set[int]] = {}
-        aug: Set[str] = set()
-        for nd in body_nodes:
-            st = nd.stmt
-            if nd.kind == "stmt" and isinstance(st, (ast.Assign, ast.AnnAssign)):
-                tgts = st.targets if isinstance(st, ast.Assign) else [st.target]
-                for t in tgts:
-                    for x in ast.walk(t):
-                        if isinstance(x, ast.Name) and isinstance(x.ctx, ast.Store):
-                            assigns.setdefault(x.id, set()).add(nd.id)
-            elif nd.kind == "stmt" and isinstance(st, ast.AugAssign) and isinstance(st.target, ast.Name):
-                aug.add(st.target.id)
-            elif nd.kind == "loop" and isinstance(st, ast.For):
-                for x in ast.walk(st.target):
-                    if isinstance(x, ast.Name):
-                        assigns.setdefault(x.id, set()).add(nd.id)
-        loop_targets = {x.id for x in ast.walk(head.stmt.target) if isinstance(x, ast.Name)}
         carried = None
         n_reads = 0
-        for nd in body_nodes:
-            reads = {x.id for x in own_nodes(nd.stmt) if isinstance(x, ast.Name) and isinstance(x.ctx, ast.Load)}
-            for v in sorted(reads & set(assigns)):
-                if v in loop_targets or v in aug:
-                    continue
-                n_reads += 1
-                through = set(assigns[v]) - {nd.id}
-                if not g.must_pass(head.id, nd.id, through, labels=normal_edge):
-                    # a statement that assigns v and reads it only on its right-hand side after assigning is still a read-before-write: keep it
-                    carried = (v, nd)
+        for g, head in targets:
+            c, n = _d6_loop(g, head)
+            n_reads += n
+            carried = carried or c
         if carried:
             v, nd = carried
             ctx.refuted(rule, f"{q}:no-loop-carried-decisions", f"carried:{v}", f"{mod.rel}:{nd.line}",
@@ -869,6 +840,66 @@ def rule_D6(ctx, rule: str = "D6") -> None:
                         "computed for the previous field, so whether a default-valued field is written depends on the field declared before it", "a present sub-message followed by default scalars")
         else:
             ctx.proved(rule, f"{q}:no-loop-carried-decisions", mod.loc(fn), f"{n_reads} reads of loop-assigned locals, all dominated by an assignment of the same iteration")
+
+
+def _d6_field_loops(mod, fn, depth: int = 0):
+    """(cfg, loop head) of the loop over the declared fields in fn; when fn iterates a private generator method of the same
+    class, the field loop inside that generator and the consuming loop"""
+    g = CFG(fn, implicit_exc=False)
+    loops = [nd for nd in g.nodes if nd.kind == "loop" and isinstance(nd.stmt, ast.For)]
+    direct = [nd for nd in loops if "meta_by_field_name" in ast.unparse(nd.stmt.iter)]
+    if direct:
+        return [(g, direct[0])]
+    if depth >= 2:
+        return []
+    for nd in loops:
+        it = nd.stmt.iter
+        if isinstance(it, ast.Call) and isinstance(it.func, ast.Attribute) and isinstance(it.func.value, ast.Name) and it.func.value.id == "self":
+            try:
+                helper = mod.func(f"Message.{it.func.attr}")
+            except Exception:
+                continue
+            inner = _d6_field_loops(mod, helper, depth + 1)
+            if inner:
+                return inner + [(g, nd)]
+    return []
+
+
+def _d6_loop(g, head):
+    body_stmts = set()
+    for st in ast.walk(head.stmt):
+        body_stmts.add(id(st))
+    body_nodes = [nd for nd in g.nodes if nd.stmt is not None and id(nd.stmt) in body_stmts and nd.id != head.id and nd.kind in ("stmt", "test", "loop")]
+    assigns: Dict[str, Set[int]] = {}
+    aug: Set[str] = set()
+    for nd in body_nodes:
+        st = nd.stmt
+        if nd.kind == "stmt" and isinstance(st, (ast.Assign, ast.AnnAssign)):
+            tgts = st.targets if isinstance(st, ast.Assign) else [st.target]
+            for t in tgts:
+                for x in ast.walk(t):
+                    if isinstance(x, ast.Name) and isinstance(x.ctx, ast.Store):
+                        assigns.setdefault(x.id, set()).add(nd.id)
+        elif nd.kind == "stmt" and isinstance(st, ast.AugAssign) and isinstance(st.target, ast.Name):
+            aug.add(st.target.id)
+        elif nd.kind == "loop" and isinstance(st, ast.For):
+            for x in ast.walk(st.target):
+                if isinstance(x, ast.Name):
+                    assigns.setdefault(x.id, set()).add(nd.id)
+    loop_targets = {x.id for x in ast.walk(head.stmt.target) if isinstance(x, ast.Name)}
+    carried = None
+    n_reads = 0
+    for nd in body_nodes:
+        reads = {x.id for x in own_nodes(nd.stmt) if isinstance(x, ast.Name) and isinstance(x.ctx, ast.Load)}
+        for v in sorted(reads & set(assigns)):
+            if v in loop_targets or v in aug:
+                continue
+            n_reads += 1
+            through = set(assigns[v]) - {nd.id}
+            if not g.must_pass(head.id, nd.id, through, labels=normal_edge):
+                # a statement that assigns v and reads it only on its right-hand side after assigning is still a read-before-write: keep it
+                carried = (v, nd)
+    return carried, n_reads
 
 
 # ---------------------------------------------------------------------------
